@@ -9,15 +9,14 @@ SOURCES = ['c01', 'c02', 'c07', 'c13', 'c14', 'c08', 'c11', 'c16']      # c02 in
 
 def run(ctx):
     ctx.panic_only = True
-    n = 0
+    fams = []
     for m in SOURCES:
         try:
             mod = importlib.import_module(f'.{m}', 'mir2smt.props')
         except ImportError:
             continue
-        for name, fn in mod.families(ctx):
-            n += 1
-            ctx.guarded(f'{m.upper()}:{name}', fn)
+        fams += [(f'{m.upper()}:{name}', fn) for name, fn in mod.families(ctx)]
+    ctx.run_families(fams)
     ctx.bounds += ['full input space of each encoded kernel under its stated precondition (see the evidence of C01/C02/C07/C08/C11/C13/C14/C16 for the preconditions)']
     ctx.assumptions += ['only the kernels listed in functions_encoded; parsers, error rendering, JSON/protobuf/FFI entry points and deep-nesting limits - most of C20 - are NOT covered',
                         'panics inside stubbed callees are not visible; modelled std functions panic exactly where std documents (unwrap/expect on None/Err, abs/rem_euclid overflow)']
